@@ -3188,20 +3188,16 @@ def aten_div_mode(self: TReal, other: TReal, rounding_mode: Optional[str] = None
     assert rounding_mode in {"trunc", "floor", None}
 
     if self.dtype.is_integer():
-        quotient = op.Div(op.Cast(self, to=FLOAT.dtype), op.Cast(other, to=FLOAT.dtype))
-
         if rounding_mode == "trunc":
-            # Rounds the results of the division towards zero.
-            # Equivalent to C-style integer division
-            result = aten_trunc(quotient)
-            return op.CastLike(result, self)
+            # ONNX Div on integers is C-style (truncating) division: exact, unlike a float32 quotient
+            return op.Div(self, other)
         if rounding_mode == "floor":
-            result = op.Floor(quotient)
-            return op.CastLike(result, self)
+            # Exact integer floor division
+            return aten_floor_divide(self, other)
 
         assert rounding_mode is None
         # When rounding_mode is None, the return type is float32
-        return quotient
+        return op.Div(op.Cast(self, to=FLOAT.dtype), op.Cast(other, to=FLOAT.dtype))
 
     # Float inputs
 
